@@ -127,11 +127,14 @@ def run(ctx):
     ctx.assumptions.append("values are rendered to trees by the driver with reflection (all fields, unexported too); "
                            "regexps are compared by their printed form; SearchResult.RepoURLs/LineFragments are handed "
                            "to FromProto by its caller (API); SearchOptions.SpanContext is declared not-on-wire in Wire.tla")
+    sigs = collections.Counter(v["signature"] for v in ctx.violations)
+    for sig, n in sorted(sigs.items()):
+        ctx.log("violation signature %-70s x %d" % (sig, n))
     return ctx.finish(
         evaluations=len(rt) + len(calls), distinct_nontrivial=nontrivial,
         rule="evaluations = round-trip events (value -> proto [-> bytes -> proto] -> value, validated by Trace_Wire.tla) "
              "+ handler calls with TLC-enumerated request shapes; non-trivial = distinct requests with a missing or "
              "meaningless part + round-tripped values other than single-node queries",
         exhaustive=False,
-        extra={"request_shapes_from_tlc": len(scripts), "round_trips_per_type": dict(per_type),
+        extra={"violation_signatures": dict(sigs), "request_shapes_from_tlc": len(scripts), "round_trips_per_type": dict(per_type),
                "query_kind_counts": kinds, "handler_outcomes": dict(call_out)})
